@@ -94,6 +94,10 @@ def _work(job):
             out = [out]
         return out
     except BaseException as ex:  # a crash of the machinery is never a verdict
+        if type(ex).__name__ == "Budget" or ("Budget" in str(ex) and type(ex).__name__ == "ArgumentError"):
+            # a wall-clock budget that fired outside its own `with` handler (e.g. inside a C call, where it surfaces as ctypes.ArgumentError):
+            # the instance is over budget - skipped, never a verdict and not a crash either
+            return []
         return [res(f"job:{getattr(fn, '__name__', fn)}:{arg!r}"[:200], ENGINE, backend="python",
                     secs=time.time() - t, detail=traceback.format_exc()[-3000:])]
 
